@@ -751,6 +751,11 @@ func (fc *FontConfigurationPango) splitFirstLine(hyphenCache map[HyphenDictKey]h
 	var startWord, stopWord int
 	if hyphens == HAuto && lang != "" {
 		nextWordBoundaries := fc.wordBoundaries(secondLineText)
+		if nextWordBoundaries != nil &&
+			strings.ContainsAny(string(secondLineText[:nextWordBoundaries[0]]), "\n\f\u0085\u2028\u2029") {
+			// the word lies beyond a preserved line break: it is not on this line
+			nextWordBoundaries = nil
+		}
 		if nextWordBoundaries != nil {
 			// We have a word to hyphenate
 			startWord, stopWord = nextWordBoundaries[0], nextWordBoundaries[1]
